@@ -6,7 +6,8 @@ MCDocPatterns == {<<>>} \cup {<<a>> : a \in Classes} \cup {<<a, b>> : a \in Clas
                  \cup {<<"plain", "blank", "unicode">>, <<"namefirst", "blank", "quotes">>, <<"plain", "blank", "tagplus">>, <<"tagat", "plain", "blank", "backslash">>}
 MCDocPatternsSmall == {<<>>} \cup {<<a>> : a \in Classes} \cup {<<"plain", "blank", "unicode">>, <<"tagplus", "namefirst">>, <<"quotes", "tagat", "percent">>, <<"plain", "colon", "goword">>}
 MCFieldDocPatterns == {<<>>, <<"plain">>, <<"quotes", "backquote">>, <<"tagplus", "percent">>, <<"plain", "blank", "atname">>, <<"backslash">>, <<"unicode", "tagat">>, <<"colon">>, <<"plain", "goword">>}
-MCKinds == {"struct", "genericStruct", "scalar", "map", "slice", "func", "interface", "unexportedScalar"}
+MCKinds == {"struct", "genericStruct", "scalar", "map", "slice", "func", "interface", "unexportedScalar",
+            "fromStd"}          \* a struct type defined from a struct of the standard library (type T os.ProcAttr): the field docs are the library's
 MCFieldPatterns == {"one", "withUnexported", "anonStruct", "emptyNamed", "embedValue", "embedPointer", "embedDocumented", "noExported", "namedCovered", "two",
                     "namedIface", "namedGenericInst", "namedScalar",
                     "embedScalar"}      \* fields of a same-package interface / generic instantiation / named scalar; embedScalar: an embedded named scalar, in a package no struct of which embeds a struct
